@@ -29,7 +29,10 @@ void h_inc_aggregate(void) {
     if (oneshot) __CPROVER_assume(nb == 0);
     __CPROVER_assume(alen <= 32 * (NMAX + 1));
 #ifdef C17_NBOUND
-    __CPROVER_assume(nb <= C17_NBOUND && nnew <= C17_NBOUND - nb);   /* BOUNDED stand-in: loops unwound instead of closed by loop contracts */
+    /* BOUNDED stand-in: loops unwound instead of closed by loop contracts.  The counts are bounded only for calls that get past the gates:
+     * count overflow and "buffer too small" (the buffer has at most C17_NBOUND+2 slots) are checked for ARBITRARY n_before, n_new */
+    __CPROVER_assume(alen <= 32 * (C17_NBOUND + 2));
+    __CPROVER_assume((nb <= C17_NBOUND && nnew <= C17_NBOUND - nb) || nb + nnew < nb || W(alen) < 32 * (W(nb) + W(nnew) + 1));
 #endif
     n = nb + nnew; wrap = n < nb; big = (nb > NMAX || nnew > NMAX);   /* big: the length can never suffice, the arrays must not be touched */
 #ifndef C17_NBOUND
@@ -39,21 +42,26 @@ void h_inc_aggregate(void) {
 #else
     /* BOUNDED stand-in: fixed-capacity objects (exact object sizes are what the unbounded unit C17.inc_aggregate uses); *aggsig_len <= capacity */
     INPUT_ARR(unsigned char, aggbuf, 32 * (C17_NBOUND + 2)); INPUT_ARR(unsigned char, msgbuf, 32 * C17_NBOUND); INPUT_ARR(unsigned char, sigbuf, 64 * C17_NBOUND); INPUT_ARR(secp256k1_xonly_pubkey, pkbuf, C17_NBOUND);
-    __CPROVER_assume(alen <= sizeof(aggbuf));
     aggsig = aggbuf; msgs = msgbuf; sigs = sigbuf; pks = pkbuf;
 #endif
     verif_ctx_init(&ctx); ctx.hash_ctx.fn_sha256_compression = secp256k1_sha256_transform;
-    c17_init_n = 0; c17_mode = 1; c17_aggsig = aggsig; c17_msgs = msgs; c17_pks = pks; c17_sigs = sigs; c17_n = nnew; c17_nb = nb; g_gen_n = 0; c17_phase = 0;
+    c17_init_n = 0; c17_mode = 1; c17_aggsig = aggsig; c17_msgs = msgs; c17_pks = pks; c17_sigs = sigs; c17_n = nnew; c17_nb = nb; g_gen_n = 0; c17_phase = 0; c17_mul_n = 0;
     verif_c17_xo_n = 0; verif_c17_fin_n = 0; verif_c17_bad = 0; verif_c17_rej = 0; verif_c17_whit = 0;
     toosmall = (W(alen) < 32 * (W(nb) + W(nnew) + 1));
     verif_c17_gb = gb; verif_c17_gb_exp = 0;
+#ifndef C17_EARLY   /* the early-exit variant never reaches a loop: no expectation about array contents is needed */
     if (!big && !wrap && !toosmall && gb < 32 * n) { if (gb / 32 < nb) verif_c17_gb_exp = aggsig[gb]; else FOR_IDX(k, gb / 32 - nb) verif_c17_gb_exp = sigs[64 * k + gb % 32]; }
+#endif
+#ifdef C17_EARLY
+    verif_c17_gk = gk; c17_exp_s = 0; c17_exp_r = 0; c17_exp_px = 0; c17_exp_py = 0; verif_c17_wpos = wpos; verif_c17_wexp = 0;
+#else
     /* s_gk of the gk-th NEW signature, for the product wiring */
-    verif_c17_gk = gk; c17_exp_s = 0; c17_exp_r = 0; c17_exp_px = 0; c17_exp_py = 0;
+    verif_c17_gk = gk; c17_exp_s = 0; c17_exp_r = 0; c17_exp_px = 0; c17_exp_py = 0; verif_c17_wpos = wpos; verif_c17_wexp = 0;
     if (!big && !wrap && !toosmall && gk < nnew) FOR_IDX(k, gk) c17_exp_s = be256(sigs + 64 * k + 32);
     verif_c17_wpos = wpos; verif_c17_wexp = 0;
     if (!big && !wrap && !toosmall && wpos >= 64 && wpos < 64 + 96 * (uint64_t)n) { size_t t = (wpos - 64) / 96, o = (wpos - 64) % 96;
         FOR_IDX(k, t) verif_c17_wexp = o < 32 ? (k < nb ? aggsig[32 * k + o] : sigs[64 * (k - nb) + o]) : o < 64 ? pks[k].data[31 - (o - 32)] : msgs[32 * k + (o - 64)]; }
+#endif
     len = alen;
 
 #ifdef C17_EARLY
@@ -72,21 +80,19 @@ void h_inc_aggregate(void) {
     if (wrap) __CPROVER_assert(ret == 0 && g_illegal == 1, "C17 inc_aggregate: n_before + n_new overflow reports illegal use and returns 0");
     misuse = !use_agg || !use_len || (!use_sigs && nnew != 0) || wrap || (!use_pk && n != 0) || (!use_msgs && n != 0);
     if (misuse) { __CPROVER_assert(ret == 0 && g_illegal == 1 && len == alen && verif_c17_fin_n == 0 && verif_c17_whit == 0 && c17_init_n == 0, "C17 inc_aggregate: API misuse reports illegal use, returns 0, aggregates nothing"); 
-#ifndef C17_NBOUND
         if (wrap) REACH("inc_aggregate count overflow");
-#endif
         REACH("inc_aggregate API misuse"); return; }
     if (toosmall) { __CPROVER_assert(ret == 0 && g_illegal == 0 && len == alen && verif_c17_whit == 0 && c17_init_n == 0, "C17 inc_aggregate: buffer smaller than 32*(n+1) returns 0 and touches nothing");
         if (alen == 32 * n && n > 1) REACH("inc_aggregate buffer one slot short");
-#ifndef C17_NBOUND
         if (big) REACH("inc_aggregate huge count");
-#endif
         return; }
+#ifndef C17_EARLY
     if (ret == 1) {
         __CPROVER_assert(g_illegal == 0, "C17 inc_aggregate: success without callback");
         __CPROVER_assert(W(len) == 32 * (W(n) + 1), "C17 inc_aggregate: *aggsig_len = 32*(n+1) on success");
         if (gb < 32 * n) __CPROVER_assert(aggsig[gb] == verif_c17_gb_exp, "C17 inc_aggregate: old r's untouched, new r's copied to slots n_before..n-1");
         __CPROVER_assert(verif_c17_bad == 0 && verif_c17_fin_n == nnew && c17_init_n == 1, "C17 inc_aggregate: one running hash, one randomizer per new signature from a finalize at length 64+96(i+1), products s_i*z_i (i != 0), hash bytes as specified");
+        __CPROVER_assert(c17_mul_n == nnew - ((nb == 0 && nnew > 0) ? 1 : 0), "C17 inc_aggregate: exactly one product s_i*z_i per new signature i != 0 (z_0 = 1 only for the very first signature)");
         if (wpos >= 64 && wpos < 64 + 96 * (uint64_t)n) __CPROVER_assert(verif_c17_whit, "C17 inc_aggregate: every position of r_i || pk_i || m_i, i < n, is written to the running hash");
         if (nb == 0 && nnew == 0) REACH("inc_aggregate empty");
         #ifndef C17_NBOUND
@@ -105,4 +111,5 @@ void h_inc_aggregate(void) {
         __CPROVER_assert(g_illegal == 1, "C17 inc_aggregate: well-formed call with enough room fails only on an invalid public key object (illegal callback)");
         if (n > 1) REACH("inc_aggregate invalid key object");
     }
+#endif
 }
